@@ -11,6 +11,7 @@ mod fleet;
 mod wire;
 mod bv;
 mod rt;
+mod mux;
 
 fn main() {
     let args: Vec<String> = std::env::args().collect();
@@ -36,6 +37,7 @@ fn main() {
         "bv-random" => bv::random(&a),
         "rt-vectors" => rt::vectors(&a),
         "rt-random" => rt::random(&a),
+        "mux" => mux::run(&a),
         other => {
             eprintln!("unknown engine {other}");
             2
